@@ -124,6 +124,9 @@ func (data EditCandidatePublicKeyData) Run(tx *Transaction, context state.Interf
 		deliverState.Accounts.SubBalance(sender, tx.GasCoin, commission)
 		rewardPool.Add(rewardPool, commissionInBaseCoin)
 
+		// the validator entry is keyed by the old public key and will be replaced
+		// at the end of the block: hand its accumulated reward back to the pool
+		deliverState.Validators.SetToDrop(data.PubKey)
 		deliverState.Candidates.ChangePubKey(data.PubKey, data.NewPubKey)
 
 		deliverState.Accounts.SetNonce(sender, tx.Nonce)
